@@ -1,6 +1,7 @@
 import Driver.Latch
 import Driver.LockFam
 import Driver.Barrier
+import Driver.LR
 import Driver.HB
 import Driver.DD
 import Driver.Deferred
@@ -10,7 +11,7 @@ import Driver.SOH
 import Driver.DObj
 open Driver
 
-def comps : List Comp := [LatchD.comp, LockFamD.comp, BarrierD.comp, DeferredD.comp, TripWireD.comp, SOHD.comp, SOHD.compNoTap, TriggerD.comp, DDD.comp, DObjD.comp]
+def comps : List Comp := [LatchD.comp, LockFamD.comp, BarrierD.comp, DeferredD.comp, TripWireD.comp, SOHD.comp, SOHD.compNoTap, TriggerD.comp, DDD.comp, DObjD.comp, LRD.comp, LRD.compStrict]
 
 def main (args : List String) : IO UInt32 := do
   match args with
